@@ -772,52 +772,75 @@ theorem rt_deserPreparedMetadata (pm : PreparedMeta) (h : WfPreparedMeta pm) :
   rw [← hpk] at this
   exact this
 
-/-- Result metadata inside PREPARED; `global` / `noMeta` are presentation choices of the server. -/
-def encResultMetaP (global noMeta : Bool) (m : ResultMeta) : Bytes :=
-  encInt (flagBits global false noMeta false) ++ (encInt m.colCount ++ (if noMeta then [] else encGtsCols global m.cols))
+/-- Result metadata inside PREPARED; `global` / `noMeta` / `nid` are presentation choices of the server: `nid` is a
+new metadata id announced with flag 0x8 (only with the metadata-id extension and real metadata); the driver reads
+it and then keeps the id of the PREPARED response itself. -/
+def encResultMetaP (global noMeta : Bool) (nid : Option Bytes) (m : ResultMeta) : Bytes :=
+  encInt (flagBits global false noMeta nid.isSome) ++ (encInt m.colCount ++
+    ((match nid with
+      | some i => encShortBytes i
+      | none => []) ++ (if noMeta then [] else encGtsCols global m.cols)))
 
-def WfResultMetaP (global noMeta : Bool) (m : ResultMeta) : Prop :=
-  m.colCount < 2 ^ 31 ∧ (if noMeta then m.cols = [] else m.cols.length = m.colCount ∧ WfGtsCols global m.cols)
+def WfResultMetaP (f : Features) (global noMeta : Bool) (nid : Option Bytes) (m : ResultMeta) : Prop :=
+  m.colCount < 2 ^ 31 ∧ (∀ i, nid = some i → f.metadataId = true ∧ noMeta = false ∧ i.length < 65536) ∧
+  (if noMeta then m.cols = [] else m.cols.length = m.colCount ∧ WfGtsCols global m.cols)
 
-theorem rt_deserResultMetadataP (f : Features) (global noMeta : Bool) (m : ResultMeta)
-    (h : WfResultMetaP global noMeta m) :
-    RT (deserResultMetadata f) (encResultMetaP global noMeta m) (⟨none, m.colCount, m.cols⟩, none) := by
+theorem rt_deserResultMetadataP (f : Features) (global noMeta : Bool) (nid : Option Bytes) (m : ResultMeta)
+    (h : WfResultMetaP f global noMeta nid m) :
+    RT (deserResultMetadata f) (encResultMetaP global noMeta nid m) (⟨nid, m.colCount, m.cols⟩, none) := by
   obtain ⟨mid, cc, cols⟩ := m
-  obtain ⟨hcc, hc⟩ := h
+  obtain ⟨hcc, hn, hc⟩ := h
   simp only at hcc hc ⊢
   unfold deserResultMetadata encResultMetaP
   refine rt_bind (rt_tag _ (rt_readInt _ (flagBits_range _ _ _ _))) ?_
-  obtain ⟨b1, b2, b3, b4⟩ := flagSet_bits global false noMeta false
-  simp only [b1, b2, b3, b4, Bool.and_false, Bool.false_and, Bool.false_eq_true, if_false]
-  refine rt_bind (rt_tag _ (rt_readIntLength cc hcc)) ?_
-  refine rt_bind0 (rt_optRead_false _) (rt_bind0 (rt_optRead_false _) ?_)
-  cases noMeta with
-  | true =>
-    simp only [if_true] at hc ⊢
-    subst hc
-    simp only [condRead, Bool.not_true, Bool.false_eq_true, if_false]
-    exact rt_map (fun cs => ((⟨none, cc, cs⟩ : ResultMeta), (none : Option Bytes))) (rt_pure [])
-  | false =>
-    simp only [Bool.false_eq_true, if_false] at hc ⊢
-    obtain ⟨hl, hg⟩ := hc
-    subst hl
-    simp only [condRead, Bool.not_false, if_true]
-    have := rt_gtsCols global cols hg (fun cs => cs)
-    simp only [bind_pure_M] at this
-    exact rt_map (fun cs => ((⟨none, cols.length, cs⟩ : ResultMeta), (none : Option Bytes))) (by
-      simpa [bind_pure_M] using this)
+  obtain ⟨b1, b2, b3, b4⟩ := flagSet_bits global false noMeta nid.isSome
+  simp only [b1, b2, b3, b4]
+  have hch : (f.metadataId && nid.isSome) = nid.isSome := by
+    cases nid with
+    | none => simp
+    | some i => simp [(hn i rfl).1]
+  have hnot : ((f.metadataId && nid.isSome) && noMeta) = false := by
+    cases nid with
+    | none => simp
+    | some i => simp [(hn i rfl).2.1]
+  simp only [hnot, Bool.false_eq_true, if_false, hch]
+  trace_state
+  refine rt_bind (rt_tag _ (rt_readIntLength cc hcc)) (rt_bind0 (rt_optRead_false _) ?_)
+  have tail : RT (condRead (!noMeta) (optRead global (tag "gts" deserTableSpec) >>= fun gts =>
+        deserColSpecs gts cc) [] >>= fun cs =>
+        (pure ((⟨nid, cc, cs⟩ : ResultMeta), (none : Option Bytes)) : M (ResultMeta × Option Bytes)))
+      (if noMeta then [] else encGtsCols global cols) ((⟨nid, cc, cols⟩ : ResultMeta), none) := by
+    cases noMeta with
+    | true =>
+      simp only [if_true] at hc ⊢
+      subst hc
+      simp only [condRead, Bool.not_true, Bool.false_eq_true, if_false]
+      exact rt_map (fun cs => ((⟨nid, cc, cs⟩ : ResultMeta), (none : Option Bytes))) (rt_pure [])
+    | false =>
+      simp only [Bool.false_eq_true, if_false] at hc ⊢
+      obtain ⟨hl, hg⟩ := hc
+      subst hl
+      simp only [condRead, Bool.not_false, if_true]
+      have := rt_gtsCols global cols hg (fun cs => cs)
+      simp only [bind_pure_M] at this
+      exact rt_map (fun cs => ((⟨nid, cols.length, cs⟩ : ResultMeta), (none : Option Bytes))) (by
+        simpa [bind_pure_M] using this)
+  cases nid with
+  | none => exact rt_bind0 (rt_optRead_false _) tail
+  | some i => exact rt_bind (rt_optRead (rt_tag "newid" (rt_readShortBytes i (hn i rfl).2.2))) tail
 
-def encPrepared (f : Features) (global noMeta : Bool) (p : Prepared) : Bytes :=
+def encPrepared (f : Features) (global noMeta : Bool) (nid : Option Bytes) (p : Prepared) : Bytes :=
   encShortBytes p.id ++ ((match p.resultMeta.id with
     | some i => encShortBytes i
-    | none => []) ++ (encPreparedMeta p.prepMeta ++ encResultMetaP global noMeta p.resultMeta))
+    | none => []) ++ (encPreparedMeta p.prepMeta ++ encResultMetaP global noMeta nid p.resultMeta))
 
-def WfPrepared (f : Features) (global noMeta : Bool) (p : Prepared) : Prop :=
+def WfPrepared (f : Features) (global noMeta : Bool) (nid : Option Bytes) (p : Prepared) : Prop :=
   p.id.length < 65536 ∧ (p.resultMeta.id.isSome = f.metadataId) ∧ (∀ i, p.resultMeta.id = some i → i.length < 65536) ∧
-  WfPreparedMeta p.prepMeta ∧ WfResultMetaP global noMeta p.resultMeta
+  WfPreparedMeta p.prepMeta ∧ WfResultMetaP f global noMeta nid p.resultMeta
 
-theorem rt_deserPrepared (f : Features) (global noMeta : Bool) (p : Prepared) (h : WfPrepared f global noMeta p) :
-    RT (deserPrepared f) (encPrepared f global noMeta p) p := by
+theorem rt_deserPrepared (f : Features) (global noMeta : Bool) (nid : Option Bytes) (p : Prepared)
+    (h : WfPrepared f global noMeta nid p) :
+    RT (deserPrepared f) (encPrepared f global noMeta nid p) p := by
   obtain ⟨id, pm, ⟨rid, rcc, rcols⟩⟩ := p
   obtain ⟨hid, hrm, hril, hpm, hrmw⟩ := h
   simp only at hid hrm hril hpm hrmw
@@ -828,11 +851,11 @@ theorem rt_deserPrepared (f : Features) (global noMeta : Bool) (p : Prepared) (h
         match rp.2 with
         | some _ => fail "prep.nonzeropaging"
         | none => (pure (⟨id, pm, { rp.1 with id := rmid }⟩ : Prepared) : M Prepared))
-      (encPreparedMeta pm ++ encResultMetaP global noMeta ⟨rid, rcc, rcols⟩) ⟨id, pm, ⟨rmid, rcc, rcols⟩⟩ := by
+      (encPreparedMeta pm ++ encResultMetaP global noMeta nid ⟨rid, rcc, rcols⟩) ⟨id, pm, ⟨rmid, rcc, rcols⟩⟩ := by
     intro rmid
     refine rt_bind (rt_tag _ (rt_deserPreparedMetadata pm hpm)) ?_
-    rw [← List.append_nil (encResultMetaP global noMeta _)]
-    refine rt_bind (rt_tag _ (rt_deserResultMetadataP f global noMeta ⟨rid, rcc, rcols⟩ hrmw)) ?_
+    rw [← List.append_nil (encResultMetaP global noMeta nid _)]
+    refine rt_bind (rt_tag _ (rt_deserResultMetadataP f global noMeta nid ⟨rid, rcc, rcols⟩ hrmw)) ?_
     exact rt_pure _
   cases rid with
   | none =>
